@@ -119,6 +119,13 @@ func TestVerifC19(t *testing.T) {
 				add(fmt.Sprintf("bundle_%d.js", at), sb.Bytes())
 			}
 		}
+		// two classifications of one file that END on the same line and start on different ones: a
+		// license whose last line also carries a complete one-line header (seen with -headers)
+		{
+			oneLineHeader := strings.Join(strings.Fields(string(apache)), " ")
+			add("sameend.txt", []byte(strings.TrimRight(string(mit), "\n")+" "+oneLineHeader+"\n"))
+			add("samestart.txt", []byte(oneLineHeader+" "+string(mit)))
+		}
 		if ti%3 == 1 {
 			add("two.txt", append(append(append([]byte(nil), mit...), []byte("\n\nunrelated words between the two\n\n")...), bsd...))
 		}
